@@ -4,6 +4,7 @@ package main
 // map iteration orders and NumCPU answers of one Call, sharded over worker processes.
 
 import (
+	"bytes"
 	"encoding/json"
 	"fmt"
 	"io"
@@ -53,6 +54,69 @@ type countWriter struct {
 }
 
 func (c *countWriter) Write(p []byte) (int, error) { c.n++; return c.w.Write(p) }
+
+// starveFamily runs the scenario once per goroutine g of its canonical execution with g (and, in a
+// second pass, g and all its descendants) given the lowest priority: g only runs when nothing else is
+// enabled. These executions let the other stages race arbitrarily far ahead of one stalled stage —
+// the regime in which bounded re-order buffers and full channel buffers matter — at the cost of one
+// execution per goroutine. Returns observation -> (count, first trace, starved id).
+func (s *Scenario) starveFamily() (map[string]int, map[string][]int, map[string]string, int) {
+	counts, traces, who := map[string]int{}, map[string][]int{}, map[string]string{}
+	fn := s.execFn()
+	r0, _ := fn(nil)
+	n := 0
+	for _, g := range r0.Goroutines {
+		for _, suffix := range []string{"", "*"} {
+			if g == "0" {
+				continue
+			}
+			r, obs := s.execStarving(g + suffix)
+			n++
+			counts[obs]++
+			if _, ok := traces[obs]; !ok {
+				traces[obs] = append([]int(nil), r.Trace...)
+				who[obs] = g + suffix
+			}
+		}
+	}
+	return counts, traces, who, n
+}
+
+func (s *Scenario) execStarving(starve string) (*zzvs.Result, string) {
+	var fw *faultWriter
+	var wrap func(io.Writer) io.Writer
+	if s.FaultK > 0 {
+		wrap = func(w io.Writer) io.Writer { fw = &faultWriter{w: w, k: s.FaultK, persist: s.Persist}; return fw }
+	}
+	var buf bytes.Buffer
+	var err error
+	c := s.Call
+	r := zzvs.RunStarving(nil, starve, c.ncpu(), func() {
+		var w io.Writer = &buf
+		if wrap != nil {
+			w = wrap(w)
+		}
+		err = c.Run(w)
+	})
+	if r.Outcome == "engine-timeout" {
+		engine.EngineError("watchdog expired in %s (starving %s)", c.Cmd, starve)
+	}
+	o := Obs{Outcome: r.Outcome, Out: buf.String()}
+	if r.Outcome == "returned" && err != nil {
+		o.HasErr, o.Err = true, err.Error()
+	}
+	obs := o.String()
+	if r.Outcome == "panic" {
+		obs += "|" + r.PanicG + ": " + r.PanicV
+	}
+	if r.Outcome == "deadlock" {
+		obs += "|" + strings.Join(r.Blocked, "; ")
+	}
+	if fw != nil {
+		obs = fmt.Sprintf("fired=%v|", fw.fired) + obs
+	}
+	return r, obs
+}
 
 // execFn builds the ExecFn of a scenario.
 func (s *Scenario) execFn() engine.ExecFn {
@@ -155,6 +219,18 @@ func planSched(scens []Scenario, depth int, judge func(sc *Scenario, st *engine.
 			b, _ := json.Marshal(schedJob{Scen: i, Mode: mode.String(), Prefix: prefixStr(p)})
 			jobs = append(jobs, string(b))
 		}
+		// the starvation family (one execution per goroutine and per goroutine subtree)
+		sc1, st1, who, nst := sc.starveFamily()
+		for obs, n := range sc1 {
+			ex.St.Execs += 0
+			ex.St.Outcomes[obs] += n
+			if _, ok := ex.St.FirstTrace[obs]; !ok {
+				ex.St.FirstTrace[obs] = st1[obs]
+			}
+			_ = who
+		}
+		ex.St.Execs += nst
+		pre.Count("starvation_schedules", nst)
 		accountStats(sc, ex.St, pre)
 		pre.Count("mode_"+mode.String()+"_scenarios", 1)
 		if judge != nil {
